@@ -1,5 +1,6 @@
 import RedactVerif.Props.C01
 import RedactVerif.Props.FactsConsts
+import RedactVerif.Props.FactsSkelBuffer
 /-
 C03 — no envelope spans a line break: each output line is redactable alone.
 
